@@ -139,7 +139,7 @@ def main():
         "setup_cmd": "./setup.sh",
         "hooks": {
             "guard": "cargo feature `verif` (seglog, sierradb, sierradb-topology, sierradb-cluster, sierradb-server); off by default",
-            "enable": "the engine crates under /verif/sim depend on /repo/crates/* by path with features=[\"verif\"]; ./check rebuilds them with cargo build --offline --profile sim",
+            "enable": "the engine crates under /verif/sim depend on /repo/crates/* by path with features=[\"verif\"]; ./check rebuilds them with cargo build --offline --profile sim. The simulation build (not /repo) also patches kameo with /verif/sim/vendor/kameo (kameo 0.19.2 plus the remote::sim seam that hands swarm commands to the simulator) and sets --cfg tokio_unstable for tokio's blocking-pool metrics and seeded select!",
             "baseline_off_cmd": "cd /repo && cargo nextest run --workspace --no-fail-fast --tool-config-file pb:/w/lib/nextest.toml --profile pb --test-threads 8 --offline || cargo test --workspace --no-fail-fast --offline",
             "source_commits": hook_commits(),
             "add_only": True,
@@ -159,7 +159,7 @@ def main():
 KINDS = {
  "storesim": "engine A: real sierradb::Database (writer threads gated at hook points, hand-rolled executor, fsync ledger, crash images on /dev/shm); engine B: real seglog Writer/Readers on a real file with stored-byte faults",
  "breakersim": "engine D: the real circuit_breaker.rs source compiled against shuttle atomics and a simulated wall clock, explored by shuttle's seeded random and PCT schedulers",
- "clustersim": "engines C/E: real sierradb-cluster components (confirmation manager, replicator queues, ClusterActor) and real TopologyManager under a tokio paused clock with a simulated transport",
+ "clustersim": "engines C/E: real sierradb-cluster components driven directly (confirmation manager, replicator actor) and a multi-node engine running N real ClusterActors (plus the real RESP server for C22) in one process, each node on its own paused-clock tokio runtime, over a simulated network (per-message delay/loss/duplication/unreachable, link cuts, isolation, crash = runtime drop, restart) and a simulated gossip bus; engine E: real topology Behaviour + TopologyManager over the same kind of bus",
 }
 
 if __name__ == "__main__":
